@@ -857,6 +857,81 @@ def where_broadcast_case(args) -> Dict[str, Any]:
     return res
 
 
+# ---------------------------------------------------------------------------------------------- operator dunders
+
+_DUNDER_BIN = {"+": ("Add", lambda a, b: a + b), "-": ("Subtract", lambda a, b: a - b), "*": ("Multiply", lambda a, b: a * b),
+               "/": ("Divide", lambda a, b: a / b), "**": ("Power", lambda a, b: a ** b)}
+_DUNDER_UN = {"neg": ("Negative", lambda a: -a), "pos": ("Positive", lambda a: +a)}
+if hasattr(mg.Tensor, "__abs__"):
+    _DUNDER_UN["abs"] = ("Abs", lambda a: abs(a))
+_DUNDER_VALS = [1.0, 2.0, 0.5, 3.0, -1.0, 0.0, 1.5]
+
+
+def dunder_case(args) -> Dict[str, Any]:
+    """the gradient an *operator expression* leaves on each non-constant tensor operand equals the gradient of the
+    Operation class that implements the operator (which the strata above tie to the exact derivative) — in particular
+    where the dunder dispatches on operand *values* (Tensor.__pow__: exponents 1 and 2) and operand kinds (tensor,
+    0-d tensor, ndarray, Python scalar: only tensors receive gradients, and every non-constant tensor does)."""
+    sym, k, seed = args
+    import random
+
+    rng = random.Random(f"c02dunder:{seed}:{sym}:{k}")
+    by = {c.__name__: c for c in discover()}
+    res = {"sym": sym, "k": k, "fails": []}
+    with np.errstate(all="ignore"):
+        if sym in _DUNDER_UN:
+            cname, f = _DUNDER_UN[sym]
+            shp = rng.choice([(), (1,), (3,)])
+            a = np.array([rng.choice([v for v in _DUNDER_VALS if v != 0.0]) for _ in range(int(np.prod(shp)))]).reshape(shp)
+            g = np.array([float(rng.randint(-3, 3)) for _ in range(a.size)]).reshape(shp)
+            ref, _ = _op_grads(by[cname], [a], g)
+            t = mg.tensor(a.copy(), constant=False)
+            out = f(t)
+            out.backward(g)
+            got = [t.grad]
+            kinds = ["tensor"]
+            arrays = [a]
+        else:
+            cname, f = _DUNDER_BIN[sym]
+            shapes = rng.choice([((), ()), ((3,), ()), ((), (3,)), ((3,), (3,)), ((2, 3), (3,)), ((3,), (1,)), ((1,), ())])
+            base_vals = [2.0, 0.5, 3.0, 1.5] if sym in ("**", "/") else _DUNDER_VALS
+            arrays = [np.array([rng.choice(base_vals) for _ in range(int(np.prod(shapes[0])))]).reshape(shapes[0]),
+                      np.array([rng.choice([1.0, 2.0] if (sym == "**" and rng.random() < 0.6) else
+                                           [v for v in _DUNDER_VALS if not (sym == "/" and v == 0.0)])
+                                for _ in range(int(np.prod(shapes[1])))]).reshape(shapes[1])]
+            if sym == "**" and rng.random() < 0.5:  # an exponent array holding one special value throughout
+                arrays[1] = np.full(shapes[1], rng.choice([1.0, 2.0]))
+            out_shape = np.broadcast_shapes(*shapes)
+            g = np.array([float(rng.randint(-3, 3)) for _ in range(int(np.prod(out_shape)))]).reshape(out_shape)
+            ref, _ = _op_grads(by[cname], arrays, g)
+            kinds = [rng.choice(["tensor", "tensor", "tensor", "array", "scalar"]) for _ in range(2)]
+            if "tensor" not in kinds:
+                kinds[rng.randrange(2)] = "tensor"
+            ops = []
+            for a, kd in zip(arrays, kinds):
+                if kd == "scalar" and a.ndim:
+                    kd = "array"
+                ops.append(mg.tensor(a.copy(), constant=False) if kd == "tensor" else (a.copy() if kd == "array" else float(a)))
+            kinds = ["tensor" if isinstance(o, mg.Tensor) else "other" for o in ops]
+            try:
+                out = f(ops[0], ops[1])
+                out.backward(g)
+            except Exception as e:  # noqa: BLE001
+                res["fails"].append({"what": f"raised {type(e).__name__}: {e}"[:200], "operand": 0})
+                return res
+            got = [o.grad if isinstance(o, mg.Tensor) else None for o in ops]
+    res.update(kinds=kinds, inputs=[a.tolist() for a in arrays], g=np.asarray(g).tolist())
+    for i, (kd, e, gt) in enumerate(zip(kinds, ref, got)):
+        if kd != "tensor":
+            continue
+        ok = gt is not None and e is not None and np.shape(gt) == np.shape(e) and bool(
+            np.all((np.abs(np.asarray(gt) - e) <= 1e-12 * np.maximum(1.0, np.abs(e))) | (np.isnan(gt) & np.isnan(e))))
+        if not ok:
+            res["fails"].append({"operand": i, "expected": None if e is None else np.asarray(e).tolist(),
+                                 "got": None if gt is None else np.asarray(gt).tolist()})
+    return res
+
+
 # ---------------------------------------------------------------------------------------------- run
 
 
@@ -1062,6 +1137,25 @@ def run(ctx: Ctx) -> Outcome:
                 f"expected {f.get('expected')} got {f.get('got', f.get('what'))}",
                 {"stratum": "scalar", "kind": "where-broadcast", "unit": r["unit"], "k": r["k"], "seed": ctx.seed, "case": f}))
     out.stats["where_broadcast_cases"] = nwb
+
+    # ---- 5. operator dunders: the expression's gradients are those of the implementing Operation
+    nd = ctx.n(60, 400)
+    dres = pmap(dunder_case, [(sym, k, ctx.seed) for sym in list(_DUNDER_BIN) + list(_DUNDER_UN)
+                              for k in range(nd * (3 if sym == "**" else 1))])
+    seen_d = set()
+    for r in dres:
+        out.evaluations += 1
+        out.nontrivial.add(stable_hash(["dunder", r["sym"], r["k"]]))
+        for f in r["fails"]:
+            sig = f"C02|scalar|dunder:{r['sym']}|operand{f.get('operand', 0)}|{'raises' if 'what' in f else 'gradient'}"
+            if sig in seen_d:
+                continue
+            seen_d.add(sig)
+            out.violations.append(Violation(
+                sig, f"operator {r['sym']} on operands {r.get('inputs')} (kinds {r.get('kinds')}), g={r.get('g')}: gradient of "
+                     f"operand {f.get('operand', 0)} is {f.get('got', f.get('what'))}, the implementing Operation gives {f.get('expected')}",
+                {"stratum": "scalar", "kind": "dunder", "sym": r["sym"], "k": r["k"], "seed": ctx.seed, "unit": "dunder", "case": f}))
+    out.stats["dunder_cases"] = len(dres)
     out.extra["c02_scalar_trusted"] = [
         "harness/props/c02_trace.py: Sym tracer, lowering, IR->Lean printer, the table NumPy ufunc -> Mathlib real function "
         "(LEAN_UN / LEAN_BIN) and the definedness side conditions (lean_dom)",
@@ -1084,6 +1178,10 @@ def run(ctx: Ctx) -> Outcome:
 def replay(data) -> bool:
     r = data["replay"]
     kind = r.get("kind")
+    if kind == "dunder":
+        res = dunder_case((r["sym"], r["k"], r["seed"]))
+        print(res)
+        return bool(res["fails"])
     traces, _, _ = trace_all()
     trm = {t.unit: t for t in traces}
     t = trm.get(r["unit"])
@@ -1115,6 +1213,10 @@ def replay(data) -> bool:
         return bool(fails)
     if kind == "where-broadcast":
         res = where_broadcast_case((r["unit"], r["seed"], r["k"]))
+        print(res)
+        return bool(res["fails"])
+    if kind == "dunder":
+        res = dunder_case((r["sym"], r["k"], r["seed"]))
         print(res)
         return bool(res["fails"])
     raise SystemExit(f"unknown replay kind {kind}")
